@@ -455,6 +455,8 @@ class Probe:
     def __bool__(self):
         bv = self._jv_bool
         if bv is None:
+            if isinstance(self, SizedProbe):
+                return len(self) != 0          # what Python does for an object with __len__ and no __bool__
             return True
         if isinstance(bv, Raiser):
             bv.fire("__bool__")
@@ -462,6 +464,16 @@ class Probe:
 
     def __repr__(self):
         return f"<Probe {self._jv_id}>"
+
+
+class SizedProbe(Probe):
+    """A Probe that also defines __len__ (given as a value or as a Raiser)."""
+
+    def __len__(self):
+        lv = object.__getattribute__(self, "_jv_len")
+        if isinstance(lv, Raiser):
+            lv.fire("__len__")
+        return lv
 
 
 class RecFn:
@@ -514,10 +526,12 @@ def to_py(v, objs, log, cache=None, async_fns=False):
     if t == "obj":
         if v["id"] not in cache:
             o = objs[v["id"]]
-            cache[v["id"]] = Probe(v["id"], {k: to_py(x, objs, log, cache, async_fns) for k, x in o["attrs"].items()},
+            cache[v["id"]] = (SizedProbe if "len" in o else Probe)(v["id"], {k: to_py(x, objs, log, cache, async_fns) for k, x in o["attrs"].items()},
                                    {k: to_py(x, objs, log, cache, async_fns) for k, x in o["items"].items()},
                                    to_py(o["str"], objs, log, cache, async_fns) if "str" in o else None,
                                    to_py(o["bool"], objs, log, cache, async_fns) if "bool" in o else None)
+            if "len" in o:
+                object.__setattr__(cache[v["id"]], "_jv_len", to_py(o["len"], objs, log, cache, async_fns))
         return cache[v["id"]]
     if t == "fn":
         f = (AsyncRecFn if async_fns else RecFn)(v["id"], v["mode"], to_py(v["ret"], objs, log, cache, async_fns), log)
